@@ -58,7 +58,8 @@ impl Program {
                 return None;
             }
             // keep magnitudes moderate so that overflow/underflow never decides a verdict
-            if r.v.c.iter().any(|c| c.hi.abs() > 1e60) {
+            let (lo, hi) = if u > 1e-10 { (1e-12, 1e12) } else { (1e-100, 1e100) };
+            if r.v.c.iter().any(|c| !(c.hi == 0.0 && c.lo == 0.0) && (c.hi.abs() > hi || c.hi.abs() < lo)) {
                 return None;
             }
             regs.push(r);
